@@ -684,16 +684,27 @@ func (h *Handler) ServeHTTP(w http.ResponseWriter, r *http.Request) {
 	w.Header().Add("X-Geminidb-Build", h.BuildType)
 
 	if strings.HasPrefix(r.URL.Path, "/debug/pprof") && h.Config.PprofEnabled {
-		h.handleProfiles(w, r)
+		h.debugHandler(h.handleProfiles).ServeHTTP(w, r)
 	} else if strings.HasPrefix(r.URL.Path, "/debug/vars") {
-		h.serveExpvar(w, r)
+		h.debugHandler(h.serveExpvar).ServeHTTP(w, r)
 	} else if strings.HasPrefix(r.URL.Path, "/debug/query") {
-		h.serveDebugQuery(w, r)
+		h.debugHandler(h.serveDebugQuery).ServeHTTP(w, r)
 	} else {
 		h.mux.ServeHTTP(w, r)
 	}
 
 	handlerStat.RequestDuration.AddSinceNano(start)
+}
+
+// debugHandler serves a /debug endpoint, which is dispatched before the mux and therefore not wrapped by AddRoutes:
+// with authentication enabled it is for the administrator only, without it nothing changes.
+func (h *Handler) debugHandler(inner func(http.ResponseWriter, *http.Request)) http.Handler {
+	return authenticate(func(w http.ResponseWriter, r *http.Request, user meta2.User) {
+		if !h.requireAdmin(w, user, "debug request") {
+			return
+		}
+		inner(w, r)
+	}, h, h.Config.AuthEnabled)
 }
 
 // writeHeader writes the provided status code in the response, and
